@@ -26,6 +26,8 @@
 EXTENDS Integers, Sequences, TLC, Json
 
 TsOps == {"z", "p1", "p40", "hop", "jump", "max", "dec"}
+\* "near" (2^32 - 448: a publisher whose timestamps are about to wrap) only occurs in directed scenarios
+AllTsOps == TsOps \cup {"near"}
 
 ---------------------------------------------------------------------------
 (* How lal classifies a message (pkg/base/t_rtmp.go): only the length and the first bytes matter.  *)
@@ -77,10 +79,10 @@ StageLimit == 16       \* maxAnalyzeAvMsgSize = calcFragmentHeaderQueueSize = 16
 NextDs(h, m, op) ==
   CASE h.ds = "ana"  -> IF m.t = "a" THEN "normal" ELSE IF m.t = "v" /\ ~Ksh(m) THEN "ana1" ELSE "ana"
     [] h.ds = "ana1" -> IF m.t = "a" THEN "normal"
-                        ELSE IF m.t = "v" /\ ~Ksh(m) /\ op \in {"p40", "hop", "jump", "max", "dec"} THEN "dummy" ELSE "ana1"
+                        ELSE IF m.t = "v" /\ ~Ksh(m) /\ op \in {"p40", "hop", "jump", "max", "dec", "near"} THEN "dummy" ELSE "ana1"
     [] OTHER -> h.ds
 
-NextHi(h, op) == CASE op = "z" -> FALSE [] op = "max" -> TRUE [] op = "jump" -> ~h.hi [] OTHER -> h.hi
+NextHi(h, op) == CASE op = "z" -> FALSE [] op \in {"max", "near"} -> TRUE [] op = "jump" -> ~h.hi [] OTHER -> h.hi
 
 \* codec id classes as mpegts.PackPmt distinguishes them
 VidClass(m) == IF Ex(m) THEN (IF m.n >= 5 /\ m.hv THEN "hevc" ELSE "avc")
